@@ -27,6 +27,8 @@ theorem Step.clearBufferUnlessAsleep (g : Gw) : Step Sn Mq E g g.clearBufferUnle
 theorem Step.snSendNow (g : Gw) (p : Pkt) (h : Sn p) : Step Sn Mq E g (g.snSendNow p) := fun w =>
   ⟨Emits.emit g _ ⟨p, h, rfl⟩, w⟩
 theorem Step.startSleepPinger (g : Gw) (d : UInt16) : Step Sn Mq E g (g.startSleepPinger d) := Step.of_eq rfl rfl rfl
+theorem Step.armSleepPinger (g : Gw) (d : UInt16) : Step Sn Mq E g (g.armSleepPinger d) := by
+  unfold Gw.armSleepPinger; split <;> exact Step.of_eq rfl rfl rfl
 
 @[simp] theorem newTopicId_buffer (g : Gw) : g.newTopicId.2.buffer = g.buffer := by
   unfold newTopicId
@@ -185,7 +187,8 @@ theorem Step.handleRegister (S : Sites Sn Mq) (g : Gw) (mid : UInt16) (name : By
 theorem Step.handlePingreq (S : Sites Sn Mq) (g : Gw) : Step Sn Mq E g g.handlePingreq := by
   unfold Gw.handlePingreq
   split
-  · refine Step.trans ?_ (Step.setSt _ _)
+  · refine Step.trans ?_ (Step.armSleepPinger _ _)
+    refine Step.trans ?_ (Step.setSt _ _)
     refine Step.trans ?_ (Step.snSend _ _ none S.pingresp)
     refine Step.trans ?_ (Step.flushBuffer _)
     exact Step.setSt g _
@@ -196,10 +199,7 @@ theorem Step.handleSleep (S : Sites Sn Mq) (g : Gw) (d : UInt16) : Step Sn Mq E 
   refine Step.trans ?_ (Step.setSt _ _)
   refine Step.trans ?_ (Step.snSendNow _ _ S.disconnect0)
   refine Step.trans ?_ (Step.clearBufferUnlessAsleep _)
-  unfold Gw.maybeSleepPinger
-  split
-  · exact Step.startSleepPinger g d
-  · exact Step.refl g
+  exact Step.trans (Step.of_eq (g' := ({ g with sleepDur := d } : Gw)) rfl rfl rfl) (Step.armSleepPinger _ d)
 
 /-- the only site that sends an MQTT DISCONNECT -/
 theorem Step.handlePlainDisconnect (S : Sites Sn Mq) (g : Gw) (hd : E .disconnect) :
